@@ -445,7 +445,7 @@ class PDLInterpFunctions(InterpreterFunctions):
         attr_names: list[str],
         num_operands: int,
         num_attributes: int,
-    ) -> IRDLOperation:
+    ) -> Operation:
         # Get operation name
         ctx = PDLInterpFunctions.get_ctx(interpreter)
         op_type = ctx.get_optional_op(op_name)
@@ -457,8 +457,11 @@ class PDLInterpFunctions(InterpreterFunctions):
         # Split args into operands, attributes and result types based on operand segments
         operands = list(args[:num_operands])
 
-        assert issubclass(op_type, IRDLOperation)
-        existing_properties = op_type.get_irdl_definition().properties.keys()
+        # If the op is an IRDL-defined operation, get the property names.
+        if issubclass(op_type, IRDLOperation):
+            existing_properties = op_type.get_irdl_definition().properties.keys()
+        else:
+            existing_properties = ()
 
         attributes: dict[str, Attribute] = {}
         properties: dict[str, Attribute] = {}
